@@ -478,6 +478,15 @@ pub fn gen_history(t: &mut Tape, big_per_mille: u32) -> History {
             4 => Op::WriteTlv { kind: gen_kind(t), len: gen_len(t, big_per_mille), seed: gen_seed(t) },
             _ => Op::WriteTlvType { ty: t.below(12) as usize, len: gen_len(t, big_per_mille), seed: gen_seed(t) },
         };
+        // half of the writes of a value above 65535 bytes are preceded by a capacity hint large enough to hold it
+        let big = match &op {
+            Op::Payload { v: Val::Bytes { len, .. } | Val::Tlv { len, .. } | Val::TupleU8 { len, .. } | Val::TupleType { len, .. } | Val::Section { len, .. }, .. } => *len,
+            Op::WriteTlv { len, .. } | Op::WriteTlvType { len, .. } => *len,
+            _ => 0,
+        };
+        if big > 65535 && t.coin() {
+            ops.push(Op::Reserve((*t.pick(&[131_070usize, 70_000, 200_000, 1 << 20])).max(big + 16)));
+        }
         ops.push(op);
     }
     let mut h = History { ctor, ops };
@@ -653,8 +662,8 @@ pub fn ref_encoding(v: &Val) -> Option<Vec<u8>> {
             }
         }
         Val::Addr(a) => Some(enc::enc_addr(a)),
-        Val::Tlv { kind, len, seed } | Val::TupleU8 { kind, len, seed } => enc::enc_tlv(*kind, &fill(*seed, *len)),
-        Val::TupleType { ty, len, seed } => enc::enc_tlv(enc::TYPE_CODES[*ty].1, &fill(*seed, *len)),
+        Val::Tlv { kind, len, seed } | Val::TupleU8 { kind, len, seed } => enc::enc_tlv(*kind, &tlv_value(*kind, *seed, *len)),
+        Val::TupleType { ty, len, seed } => enc::enc_tlv(enc::TYPE_CODES[*ty].1, &tlv_value(enc::TYPE_CODES[*ty].1, *seed, *len)),
         Val::Section { len, seed } => Some(fill(*seed, *len)),
         Val::Type(ty) => Some(vec![enc::TYPE_CODES[*ty].1]),
         Val::Tlvs { items, .. } => {
@@ -714,9 +723,23 @@ macro_rules! with_int {
 }
 
 /// The content bytes a value needs at run time (value bytes of a TLV, the slice, the section).
+/// The value of a TLV of type `kind`: filler by seed, except that for SEED_NESTED the value is itself the encoding of a TLV
+/// of the same type (type byte, big-endian length of the rest, the rest) - what a forwarder produces that wraps a
+/// received TLV once more.
+pub fn tlv_value(kind: u8, seed: u32, len: usize) -> Vec<u8> {
+    if seed == crate::engine::SEED_NESTED && len >= 3 {
+        let mut v = vec![kind, ((len - 3) >> 8) as u8, (len - 3) as u8];
+        v.extend(fill(7, len - 3));
+        return v;
+    }
+    fill(seed, len)
+}
+
 pub fn content(v: &Val) -> Vec<u8> {
     match v {
-        Val::Bytes { len, seed } | Val::Tlv { len, seed, .. } | Val::TupleU8 { len, seed, .. } | Val::TupleType { len, seed, .. } | Val::Section { len, seed } => fill(*seed, *len),
+        Val::Tlv { kind, len, seed } | Val::TupleU8 { kind, len, seed } => tlv_value(*kind, *seed, *len),
+        Val::TupleType { ty, len, seed } => tlv_value(enc::TYPE_CODES[*ty].1, *seed, *len),
+        Val::Bytes { len, seed } | Val::Section { len, seed } => fill(*seed, *len),
         // the section bytes, encoded by the harness itself
         Val::Tlvs { items, .. } => gen::enc_tlv_list(&items.iter().map(|(k, l, s)| (*k, fill(*s, *l))).collect::<Vec<_>>()),
         _ => Vec::new(),
@@ -959,8 +982,8 @@ pub fn execute(h: &History) -> Trace {
                         }
                     }
                 }
-                Op::WriteTlv { kind, len, seed } => b.write_tlv(*kind, &fill(*seed, *len)),
-                Op::WriteTlvType { ty, len, seed } => b.write_tlv(TYPES[*ty], &fill(*seed, *len)),
+                Op::WriteTlv { kind, len, seed } => b.write_tlv(*kind, &tlv_value(*kind, *seed, *len)),
+                Op::WriteTlvType { ty, len, seed } => b.write_tlv(TYPES[*ty], &tlv_value(enc::TYPE_CODES[*ty].1, *seed, *len)),
             }
         });
         match r {
